@@ -59,6 +59,15 @@
 
 #define MAX_NLINES	(16384)
 #define MAX_LLEN	(1024)
+#if defined DATEUTILS_VERIF && defined VERIF_PRCH_NLINES
+/* verification hook: run the reader at model scale */
+# undef MAX_NLINES
+# define MAX_NLINES	(VERIF_PRCH_NLINES)
+#endif	/* DATEUTILS_VERIF && VERIF_PRCH_NLINES */
+#if defined DATEUTILS_VERIF && defined VERIF_PRCH_LLEN
+# undef MAX_LLEN
+# define MAX_LLEN	(VERIF_PRCH_LLEN)
+#endif	/* DATEUTILS_VERIF && VERIF_PRCH_LLEN */
 
 #if !defined MAP_ANONYMOUS && defined MAP_ANON
 # define MAP_ANONYMOUS	(MAP_ANON)
@@ -143,6 +152,11 @@ prchunk_fill(prch_ctx_t ctx)
  * lines read so far and a reader yielding a buffer fill and the number of
  * bytes read */
 #define CHUNK_SIZE	(4096)
+#if defined DATEUTILS_VERIF && defined VERIF_PRCH_CHUNK
+/* verification hook: run the reader at model scale */
+# undef CHUNK_SIZE
+# define CHUNK_SIZE	(VERIF_PRCH_CHUNK)
+#endif	/* DATEUTILS_VERIF && VERIF_PRCH_CHUNK */
 #define YIELD(x)	goto yield##x
 	char *off = ctx->buf + 0;
 	char *bno = ctx->buf + ctx->bno;
